@@ -418,10 +418,13 @@ func Cause(errs []string, o *atrun.Obs, pre, mid, post memdb.Snapshot) string {
 	}
 	// no error anywhere: classify the difference
 	extra, missing, changed, big := 0, 0, 0, false
+	cols := map[int]bool{} // positions of the columns whose value differs in a row that is still there
 	for name, prs := range pre {
 		pk := map[string]string{}
+		byKey := map[string]memdb.Row{}
 		for _, r := range prs {
 			pk[fmt.Sprint(r[0])+"|"+fmt.Sprint(r[1])] = fmt.Sprint(r)
+			byKey[fmt.Sprint(r[0])+"|"+fmt.Sprint(r[1])] = r
 		}
 		seen := map[string]bool{}
 		for _, r := range post[name] {
@@ -431,6 +434,11 @@ func Cause(errs []string, o *atrun.Obs, pre, mid, post memdb.Snapshot) string {
 				extra++
 			} else if v != fmt.Sprint(r) {
 				changed++
+				for i := range r {
+					if i < len(byKey[k]) && fmt.Sprint(byKey[k][i]) != fmt.Sprint(r[i]) {
+						cols[i] = true
+					}
+				}
 			}
 		}
 		for k := range pk {
@@ -450,7 +458,12 @@ func Cause(errs []string, o *atrun.Obs, pre, mid, post memdb.Snapshot) string {
 	case missing > 0 && extra == 0 && changed == 0:
 		return "diff:deleted-row-missing"
 	case changed > 0 && extra == 0 && missing == 0:
-		return "diff:updated-row-not-restored"
+		var l []string
+		for i := range cols {
+			l = append(l, fmt.Sprintf("%02d", i))
+		}
+		sort.Strings(l)
+		return "diff:updated-row-not-restored:c" + strings.Join(l, ",")
 	}
 	return "diff:mixed"
 }
